@@ -125,7 +125,9 @@ class C15:
                                 deps.append(list(rng.choice(sub)))
                 if rng.random() < 0.03:
                     deps.append(["lib", "verif/does-not-exist"])
-                comps.append({"dir": "meta/" + name, "id": "verif/" + name, "deps": deps})
+                # package.toml details that must survive normalisation: the buildpack uri as written, the platform
+                comps.append({"dir": "meta/" + name, "id": "verif/" + name, "deps": deps,
+                              "uri": rng.choice([".", ".", "./"]), "os": rng.choice([None, None, "linux", "windows"])})
             foreign = [{"dir": "foreign/x", "id": "other/x"}] if rng.random() < 0.6 else []
             cw = rng.random()
             if cw < 0.45:
@@ -165,9 +167,11 @@ class C15:
             os.makedirs(d)
             order = "".join(f'\n[[order.group]]\nid = "{i}"\nversion = "0.1.0"\n' for k, i in C["deps"] if k == "lib") or '\n[[order.group]]\nid = "x/y"\nversion = "1.0.0"\n'
             open(os.path.join(d, "buildpack.toml"), "w").write(f'api = "0.10"\n\n[buildpack]\nid = "{C["id"]}"\nversion = "0.1.0"\n\n[[order]]\n{order}')
-            pk = '[buildpack]\nuri = "."\n'
+            pk = '[buildpack]\nuri = "%s"\n' % C.get("uri", ".")
             for k, v in C["deps"]:
                 pk += '\n[[dependencies]]\nuri = "%s"\n' % (("libcnb:" + v) if k == "lib" else v)
+            if C.get("os"):
+                pk += '\n[platform]\nos = "%s"\n' % C["os"]
             open(os.path.join(d, "package.toml"), "w").write(pk)
         for F in c["foreign"]:
             d = os.path.join(root, F["dir"])
@@ -254,7 +258,8 @@ class C15:
                     elif rel == "package.toml" and data != LIBCNB_PKG_TOML:
                         try:
                             d = tomllib.loads(data.decode())
-                            rows.append([rel, "EPackageToml", d.get("buildpack", {}).get("uri", ""), [x.get("uri", "") for x in d.get("dependencies", [])]])
+                            rows.append([rel, "EPackageToml", d.get("buildpack", {}).get("uri", ""), [x.get("uri", "") for x in d.get("dependencies", [])],
+                                         d.get("platform", {}).get("os", "linux")])
                         except Exception:
                             rows.append([rel, "EText", data.decode("utf-8", "replace")])
                     else:
@@ -289,7 +294,7 @@ class C15:
             ws.append(f"(mkBp {B(L['dir'])} {B(L['id'])} (KLib {B(L['pkg'])} {cq_list([B(x) for x in L['bins']])}))")
         for C in c["comps"]:
             deps = cq_list(["(%s %s)" % ({"lib": "DLib", "rel": "DRel", "uri": "DUri"}[k], B(v)) for k, v in C["deps"]])
-            ws.append(f"(mkBp {B(C['dir'])} {B(C['id'])} (KComp {deps}))")
+            ws.append(f"(mkBp {B(C['dir'])} {B(C['id'])} (KComp {B(C.get('uri', '.'))} {B(C.get('os') or 'linux')} {deps}))")
         for F in c["foreign"]:
             ws.append(f"(mkBp {B(F['dir'])} {B(F['id'])} KOther)")
         inv = f"(mkInv {B(c['cwd'])} {cq_bool(c['release'])} {B(o['pkgdir'])} {B(TARGET)})"
@@ -300,7 +305,7 @@ class C15:
                 if r[1] in ("EDir", "ESameToml"):
                     e = r[1]
                 elif r[1] == "EPackageToml":
-                    e = f"(EPackageToml {B(r[2])} {cq_list([B(x) for x in r[3]])})"
+                    e = f"(EPackageToml {B(r[2])} {B(r[4])} {cq_list([B(x) for x in r[3]])})"
                 else:
                     e = f"({r[1]} {cq_bytes(r[2].encode('latin-1', 'replace'))})"
                 rs.append(f"({B(r[0])}, {e})")
